@@ -98,11 +98,11 @@ CLAIMS['C17'] = ('proof', 'Lean 4 theorems (local weights are slices of the glob
     'extrema_of_local_extrema, collect_slot(_floor,_injective_in_window,_refuses_float). Real diagnostics and DiagnosticCollector.reduce on all process grids <= 6-8 ranks, three reduce orders, random complex fields.',
     NOTE_COMMON, 'DESIGN.md 4/C17')
 CLAIMS['C18'] = ('proof', 'Lean 4 theorems on a store model and on a loop program REGENERATED from fullSimulation.py on every run (translator) + correspondence with real HDF5 files and real driver runs',
-    '26 theorems: write_read_roundtrip (any writer/reader partitions), padded_lex_order, fileName_lt_iff, latest_selected, restart_time_parsed, restart_choice, loop bookkeeping on the generated script '
+    'write_read_roundtrip (any writer/reader partitions), latest_selected / restart_choice / restart_time_parsed (selection by parsed time as repaired by fix cf9d895: NO bound on the times, any folder and convention name; latestLex_wrong_beyond_six_digits describes the selection by name before the fix, finding F10), latest_first_of_ties, selection_fails_iff, padded_lex_order, loop bookkeeping on the generated script '
     '(pre/body/post_counters, run_closed_form, no_zero_division, final_state_checkpointed, loop_split for every saveStep>=1), data flow (pass_is_function_of_f, restart_equals_continue), '
     'constants_print_parse_roundtrip, constants_order_independent_partial. harness/translate_driver.py (ast) regenerates lean/PygyroVerif/Generated/TimeLoop.lean from the working tree before the build and refuses '
     'unknown source shapes (=> proof obligation broken). Oracles: bitwise HDF5 round trips p->p\' ranks, restart selection, constants round trip with permuted keys, driver N then M vs N+M.',
-    NOTE_COMMON + ' HDF5 = array store and the translator (about 700 lines of Python over ast) are trusted; file names beyond 6 digits are outside the reading of the property (observation F10).', 'DESIGN.md 4/C18')
+    NOTE_COMMON + ' HDF5 = array store and the translator (about 700 lines of Python over ast) are trusted.', 'DESIGN.md 4/C18')
 CLAIMS['C19'] = ('translation_validation', 'differential execution of every exported kernel: interpreted reference vs pythran copies (as Python), numba copies (stub numba), and (thorough) the pyccel+gfortran build of a scratch copy; line coverage of the reference measured',
     'No Lean theorem decides this property: there is no formal semantics of pyccel+gfortran. The reference semantics of the kernels are the models proved in C07/C10-C12/C16; this check validates the translations: '
     '38 functions + 16 specialised variants, outputs and in-place updates within 1e-12 of the magnitude of the summed terms (bit-equality recorded), function-name and parameter-name parity, build success (thorough). '
